@@ -52,8 +52,9 @@ type Contract struct {
 	Used     bool
 	HdrRecv  string
 	HdrName  string
+	Auto     bool
 	Opaque   bool
-	Ghost    bool     // ghost func: a sequence of contract applications (lemma over contracts)
+	Ghost    bool    // ghost func: a sequence of contract applications (lemma over contracts)
 	Calls    []*GhostCall
 }
 
@@ -76,15 +77,27 @@ type Lemma struct {
 	Line    int
 }
 
+// AutoSpec asks for synthesized thin contracts.
+type AutoSpec struct {
+	PkgPath string
+	Props   []string
+	Claims  []string
+	Skip    []string
+	Inline  []string
+	File    string
+	Line    int
+}
+
 // ContractSet holds all contracts found under a repository root.
 type ContractSet struct {
+	Autos  []*AutoSpec
 	ByKey  map[string]*Contract
 	Specs  map[string]map[string]*Contract // pkgpath → name → spec function
 	Lemmas []*Lemma
 	Files  []string
 }
 
-var clauseKw = map[string]bool{"func": true, "pure": true, "opaque": true, "ghost": true, "call": true, "assume": true, "lemma": true, "arith": true, "requires": true,
+var clauseKw = map[string]bool{"auto": true, "func": true, "pure": true, "opaque": true, "ghost": true, "call": true, "assume": true, "lemma": true, "arith": true, "requires": true,
 	"ensures": true, "loop": true, "closure": true, "modifies": true, "claims": true, "cover": true, "inline": true,
 	"replay": true, "props": true, "split": true, "hint": true, "end": true}
 
@@ -162,6 +175,34 @@ func (cs *ContractSet) loadFile(path, pkg string) error {
 		errf := func(f string, a ...interface{}) error {
 			return fmt.Errorf("%s:%d: %s", path, l.line, fmt.Sprintf(f, a...))
 		}
+		if kw == "assume" && strings.Contains(l.text, " methods ") {
+			// `assume pure methods (t T) A B C [claims heapfree]`: parameterless accessors
+			i := strings.Index(l.text, " methods ")
+			tail := strings.TrimSpace(l.text[i+len(" methods "):])
+			j := matchParen(tail, 0)
+			if !strings.HasPrefix(tail, "(") || j < 0 {
+				return errf("assume pure methods (recv T) names...")
+			}
+			recv := tail[:j+1]
+			heapfree := false
+			for _, name := range strings.Fields(tail[j+1:]) {
+				if name == "heapfree" {
+					heapfree = true
+					continue
+				}
+				c := &Contract{PkgPath: pkg, Loops: map[int][]*Clause{}, Closures: map[int]*Contract{}, Claims: map[string]bool{},
+					Inline: map[string]bool{}, File: path, Line: l.line, Header: l.text, Assumed: true, Pure: strings.Contains(l.text[:i], "pure")}
+				if heapfree {
+					c.Claims["heapfree"] = true
+				}
+				if err := parseHeader(c, recv+" "+name+"()", pkg); err != nil {
+					return errf("%v", err)
+				}
+				cs.ByKey[fmt.Sprintf("%s#%d#%s", path, l.line, name)] = c
+			}
+			cur, target = nil, nil
+			continue
+		}
 		switch kw {
 		case "func", "pure", "assume", "opaque", "ghost":
 			c := &Contract{PkgPath: pkg, Loops: map[int][]*Clause{}, Closures: map[int]*Contract{}, Claims: map[string]bool{},
@@ -213,6 +254,34 @@ func (cs *ContractSet) loadFile(path, pkg string) error {
 				return errf("%v", err)
 			}
 			cs.Lemmas = append(cs.Lemmas, &Lemma{Name: name, PkgPath: pkg, E: e, Text: body, Props: props, File: path, Line: l.line})
+			cur, target = nil, nil
+		case "auto":
+			// `auto inverse props C21 [claims ...]`: synthesize a thin contract for every function
+			// of this package that appends change pairs to a utils.History
+			fs := strings.Fields(rest)
+			if len(fs) < 1 || fs[0] != "inverse" {
+				return errf("auto inverse props Cxx")
+			}
+			a := &AutoSpec{PkgPath: pkg, File: path, Line: l.line, Claims: []string{"inverse"}}
+			mode := ""
+			for _, f := range fs[1:] {
+				switch f {
+				case "props", "claims", "skip", "inline":
+					mode = f
+				default:
+					switch mode {
+					case "props":
+						a.Props = append(a.Props, strings.Trim(f, ","))
+					case "claims":
+						a.Claims = append(a.Claims, strings.Trim(f, ","))
+					case "skip":
+						a.Skip = append(a.Skip, strings.Trim(f, ","))
+					case "inline":
+						a.Inline = append(a.Inline, strings.Trim(f, ","))
+					}
+				}
+			}
+			cs.Autos = append(cs.Autos, a)
 			cur, target = nil, nil
 		case "end":
 			cur, target = nil, nil
